@@ -1,6 +1,7 @@
 package main
 
 import (
+	"encoding/hex"
 	"fmt"
 	"math"
 	"math/rand"
@@ -56,6 +57,9 @@ func argFromSpec(s string) *variants.Variant {
 		return variants.VariantFromDouble(x)
 	case "s":
 		return variants.VariantFromString(v)
+	case "sx": // a string given byte by byte in hex (texts that are not well-formed UTF-8)
+		b, _ := hex.DecodeString(v)
+		return variants.VariantFromString(string(b))
 	case "b":
 		return variants.VariantFromBoolean(v == "true")
 	case "t":
@@ -262,6 +266,11 @@ func execC08(seg []Ev) []Ev {
 			}
 		}
 		// the IEEE functions: what the host's math library gives for the argument converted to a double (any magnitude, NaN, infinities)
+		// Contains is the host's substring test on the two texts as they are (byte for byte)
+		e["hostcontains"] = "none"
+		if e["canon"] == "contains" && len(args) == 2 && args[0].Type() == variants.String && args[1].Type() == variants.String {
+			e["hostcontains"] = fmt.Sprint(strings.Contains(args[0].AsString(), args[1].AsString()))
+		}
 		e["hostmath"] = "none"
 		if len(args) == 1 {
 			x, isNum := 0.0, true
@@ -386,7 +395,9 @@ func genC08(g *Gen) {
 			{"tz:86399:1"}, {"tz:86400:-1"}, {"tz:4102444800:19800"}, {"tl:1700000000"}, {"tl:1700071200"}, {"tl:951762600"}, {"tl:86400"}},
 		"if":       {{"b:true", "i:1", "i:2"}, {"b:false", "i:1", "i:2"}, {"i:0", "s:a", "s:b"}, {"i:5", "s:a", "s:b"}, {"d:0", "n", "i:1"}, {"d:0.5", "n", "i:1"}},
 		"choose":   {{"i:1", "s:a", "s:b"}, {"i:2", "s:a", "s:b"}, {"i:3", "s:a", "s:b", "s:c"}, {"i:3", "s:a", "s:b"}, {"i:-1", "s:a", "s:b"}, {"i:0", "s:a", "s:b"}, {"l:2", "i:7", "i:8", "i:9"}, {"i:7", "s:a", "s:b"}},
-		"contains": {{"s:hello", "s:ell"}, {"s:hello", "s:xyz"}, {"s:hello", "s:"}, {"s:héllo", "s:é"}, {"s:abc", "s:abcd"}, {"s:", "s:a"}, {"i:123", "i:2"}, {"s:a1", "i:1"}},
+		"contains": {{"s:hello", "s:ell"}, {"s:hello", "s:xyz"}, {"s:hello", "s:"}, {"s:héllo", "s:é"}, {"s:abc", "s:abcd"}, {"s:", "s:a"}, {"i:123", "i:2"}, {"s:a1", "i:1"},
+			{"sx:61fe62", "sx:ff"}, {"sx:61ff62", "sx:ff"}, {"sx:61ff62", "s:\uFFFD"}, {"s:a\uFFFDb", "sx:ff"}, {"s:a\uFFFDb", "s:\uFFFD"}, {"s:h\u00e9llo", "sx:c3"}, {"s:h\u00e9llo", "sx:a9"},
+			{"sx:c3", "s:\u00e9"}, {"sx:e282", "sx:e2"}, {"sx:e282ac", "sx:82"}, {"s:x", "s:x"}, {"s:\U0001F600", "sx:f09f"}, {"s:abc", "s:c"}, {"s:abc", "s:d"}},
 		"empty":    {{"n"}, {"i:0"}, {"s:"}, {"s:x"}, {"d:0"}, {"b:false"}, {"a"}},
 		"array":    {{}, {"i:1"}, {"i:1", "s:x", "n"}, {"a", "o", "d:1", "i:2", "i:3", "i:4", "i:5", "i:6"}},
 		"abs":      {{"i:-8"}, {"i:7"}, {"l:-9007199254740993"}, {"l:9007199254740993"}, {"i:-9223372036854775807"}, {"l:-9223372036854775808"}, {"f:-2.25"}, {"d:-0.5"}, {"d:3.5"}, {"s:-3"}, {"b:true"}, {"n"}, {"a"}},
